@@ -420,6 +420,23 @@ fn slots() -> &'static Vec<Mutex<Slot>> {
     SLOTS.get_or_init(|| (0..64).map(|_| Mutex::new(Slot { started: None, case: Value::Null })).collect())
 }
 
+thread_local! {
+    static CURRENT_CASE: std::cell::RefCell<String> = const { std::cell::RefCell::new(String::new()) };
+}
+
+/// no case here legitimately needs more than this per thread (windows are limited to 8 MiB / 128 MiB, output to 64 MiB)
+const THREAD_ALLOC_CAP: u64 = 1 << 30;
+
+/// called by the allocator on the thread that exceeded its cap: say which case was running, the process exits right after
+fn cap_exceeded() {
+    let case = CURRENT_CASE.with(|c| c.borrow().clone());
+    let dir = format!("{VERIF_DIR}/replay/C03");
+    let _ = std::fs::create_dir_all(&dir);
+    let path = format!("{dir}/memcap_{:016x}.json", fnv_str(&case));
+    let _ = std::fs::write(&path, format!("{{\"property\": \"C03\", \"signature\": {{\"kind\": \"memory_cap_exceeded\"}}, \"replay\": {case}}}"));
+    eprintln!("MON-ALLOC-CAP-CASE replay={path}");
+}
+
 fn run_one(rec: &Recorder, entry: usize, input: &[u8], aux: &[u8], limit: bool, origin: &str, mutation: &str) {
     rec.eval();
     let replay = json!({"entry_point": entry, "input": if input.len() <= 300_000 { hex(input) } else { format!("(len {})", input.len()) }, "aux": hex(aux), "limit_8mib": limit, "origin": origin, "mutation": mutation});
@@ -429,9 +446,12 @@ fn run_one(rec: &Recorder, entry: usize, input: &[u8], aux: &[u8], limit: bool, 
         s.started = Some(Instant::now());
         s.case = replay.clone();
     }
+    CURRENT_CASE.with(|c| *c.borrow_mut() = replay.to_string());
+    crate::calloc::set_cap(THREAD_ALLOC_CAP);
     let t0 = thread_cpu_s();
-    let res = catch(|| drive(entry, input, aux, limit));
+    let res = catch(|| crate::calloc::scoped(|| drive(entry, input, aux, limit)));
     let cpu = thread_cpu_s() - t0;
+    crate::calloc::set_cap(0);
     slots()[slot].lock().unwrap().started = None;
     let name = ENTRY_POINTS[entry];
     match res {
@@ -506,6 +526,7 @@ pub fn run(args: &Args) -> i32 {
         return rec.finish();
     }
 
+    crate::calloc::set_cap_hook(cap_exceeded);
     // watchdog: a case that does not return within its wall limit is re-run alone in a child with four times the limit
     let wall_limit = Duration::from_secs(if args.build.starts_with("asan") { 240 } else { 90 });
     let exe = std::env::current_exe().unwrap();
@@ -663,6 +684,13 @@ pub fn run(args: &Args) -> i32 {
                 let k = r.usize(0, seeds.len() - 1);
                 let mut f = seeds[k].bytes.clone();
                 let mut what = match &infos[k] {
+                    Some(info) if r.chance(1, 6) => match frames::shrink_block_at(r, &f, info) {
+                        Some((g, what)) => {
+                            f = g;
+                            what
+                        }
+                        None => mutate_directed(r, &mut f, info),
+                    },
                     Some(info) if r.chance(2, 3) => mutate_directed(r, &mut f, info),
                     _ => mutate_random(r, &mut f),
                 };
